@@ -9,7 +9,11 @@ use rand::SeedableRng;
 use rand_chacha::ChaCha8Rng;
 use std::io::Write;
 
+mod c07;
 mod c20;
+mod hist;
+mod world;
+mod sess;
 
 pub struct Emit {
     out: std::io::BufWriter<std::fs::File>,
@@ -74,6 +78,7 @@ fn main() {
     };
     match prop.as_str() {
         "C20" => c20::run(&mut ctx),
+        "C07" => c07::run(&mut ctx),
         other => { eprintln!("unknown property {other}"); std::process::exit(2); }
     }
     ctx.emit.out.flush().unwrap();
